@@ -203,6 +203,24 @@ func (a *Analyzer) CheckRule(clause ast.Clause) error {
 						}
 					}
 				}
+			case ast.Ineq:
+				// An inequality is evaluated in place, like a comparison: its variables need a value by now.
+				vars := make(map[ast.Variable]bool)
+				ast.AddVars(p, vars)
+				for v := range vars {
+					if boundVars[v] {
+						continue
+					}
+					if x := uf.Get(v); x != nil {
+						if _, isconst := x.(ast.Constant); isconst {
+							continue
+						}
+						if u, isvar := x.(ast.Variable); isvar && boundVars[u] {
+							continue
+						}
+					}
+					return fmt.Errorf("variable %v in %v will not have a value yet; move the subgoal to the right", v, p)
+				}
 			}
 		}
 	}
